@@ -28,12 +28,16 @@ def do_import(outdir, pid):
         shutil.copy(diff, os.path.join(d, 'patch.diff'))
         demo = os.path.join(outdir, 'demo%s.py' % n)
         if os.path.exists(demo):
-            shutil.copy(demo, os.path.join(d, 'demo.py'))
+            # keep the author's file name: some demos locate their own code by basename
+            shutil.copy(demo, os.path.join(d, os.path.basename(demo)))
+            if os.path.exists(os.path.join(d, 'demo.py')):
+                os.unlink(os.path.join(d, 'demo.py'))
         notes = os.path.join(outdir, 'notes%s.md' % n)
         meta_p = os.path.join(d, 'meta.json')
         meta = json.load(open(meta_p)) if os.path.exists(meta_p) else {}
         meta.update({'id': '%s-s%s' % (pid, n), 'property': pid, 'author': 'independent sub-agent (property text only)',
                      'needs_to_manifest': open(notes).read() if os.path.exists(notes) else ''})
+        meta['demo_file'] = os.path.basename(demo)
         meta.setdefault('props', [pid])
         json.dump(meta, open(meta_p, 'w'), indent=1)
         print('imported', d)
@@ -50,11 +54,15 @@ def verify_one(d, props, skip_tests):
     ran = {}
     try:
         env = dict(os.environ, PYTHONPATH=os.path.join(wt, 'src'), PYTHONDONTWRITEBYTECODE='1')
-        demo = os.path.join(d, 'demo.py')
+        demo = os.path.join(d, meta.get('demo_file', 'demo.py'))
         if os.path.exists(demo):
             r = sh(['/venv/bin/python', demo], env=env, cwd=wt, timeout=300)
             ran['demo_clean_rc'] = r.returncode
         r = sh(['git', '-C', wt, 'apply', os.path.join(d, 'patch.diff')])
+        if r.returncode != 0:
+            # written against an earlier commit of /repo (before later fix: commits touched the same file): 3-way merge
+            r = sh(['git', '-C', wt, 'apply', '--3way', os.path.join(d, 'patch.diff')])
+            ran['applied_with_3way'] = r.returncode == 0
         ran['applies'] = r.returncode == 0
         if not ran['applies']:
             ran['apply_err'] = r.stderr[-300:]
